@@ -287,7 +287,8 @@ def _exec_hist_calc(net, op, i, ctx, h):
             h.conv_age = 0
             h.nearby = True
             h.prev_valid = kw.get("init", "auto") in ("auto", "dc") and "init_vm_pu" not in kw and \
-                kw.get("algorithm", "nr") in ("nr", "iwamoto_nr") and kw.get("calculate_voltage_angles", True)
+                kw.get("algorithm", "nr") in ("nr", "iwamoto_nr") and kw.get("calculate_voltage_angles", True) and \
+                _normal_operating_point(net)
             h.prev_had_nan = bool(len(net.res_bus) and net.res_bus.vm_pu.isna().any())
             if h.last_feature not in ("switching",):
                 h.last_feature = "none"
@@ -351,7 +352,8 @@ def _exec_probe(net, op, i, ctx, h):
             iters = _iterations(ref)
             if _is_refusal(e_live) or not had_results:
                 conclusive = False
-            elif nearby and (iters is None or iters <= WELL_CONDITIONED_ITERS) and isinstance(e_live, Exception):
+            elif nearby and (iters is None or iters <= WELL_CONDITIONED_ITERS) and isinstance(e_live, Exception) \
+                    and _normal_operating_point(ref):
                 sig = f"{base}|init-results-fails-nearby-state|{feature}"
                 detail = (f"live runpp({kw}) raised {o_live}: {e_live!s:.120}; the fresh calculation converges "
                           f"(iterations={iters}); previous converged result is {h.conv_age} switching/small edits old, "
@@ -361,7 +363,8 @@ def _exec_probe(net, op, i, ctx, h):
         else:
             sig = f"{base}|outcome-class-differs|{feature}"
             detail = f"live raised {o_live}: {e_live!s:.160}; fresh copy returned normally"
-    elif init_results and kind == "runpp" and not (nearby and (_iterations(ref) or 0) <= WELL_CONDITIONED_ITERS):
+    elif init_results and kind == "runpp" and not (nearby and (_iterations(ref) or 0) <= WELL_CONDITIONED_ITERS
+                                                   and _normal_operating_point(ref)):
         conclusive = False          # a far-away or unvalidated start may legitimately sit in another basin
     else:
         tabs = _tables_for(kind, ref)
@@ -404,9 +407,9 @@ def _exec_probe(net, op, i, ctx, h):
             h.nearby = True
             h.last_feature = "none"
             # validated: equal to the default-start reference; or itself a default-start NR run
-            h.prev_valid = (init_results and conclusive and sig is None and e_ref is None) or \
-                (not init_results and kw.get("init", "auto") in ("auto", "dc")
-                 and kw.get("algorithm", "nr") in ("nr", "iwamoto_nr"))
+            h.prev_valid = ((init_results and conclusive and sig is None and e_ref is None) or
+                            (not init_results and kw.get("init", "auto") in ("auto", "dc")
+                             and kw.get("algorithm", "nr") in ("nr", "iwamoto_nr"))) and _normal_operating_point(net)
         else:
             h.conv_age = None
             h.last_feature = "failed calc"
@@ -430,6 +433,19 @@ def _is_solution_of(live, ref, kw_ref):
         return not oracles.compare_results(test, live, tables=["res_bus"], rtol=1e-5, atol=1e-5)
     except Exception:
         return False
+
+
+
+def _normal_operating_point(net):
+    """the stored AC result is an ordinary operating point (supplied buses between 0.8 and 1.2 p.u.): a start vector
+    taken from a voltage-collapse / low-voltage solution of the previous state lies outside Newton-Raphson's region of
+    convergence for the normal solution of the next one - the start-point effect, not a history effect"""
+    try:
+        vm = net.res_bus.vm_pu.values.astype(float)
+    except Exception:
+        return False
+    vm = vm[~np.isnan(vm)]
+    return bool(len(vm)) and bool(vm.min() >= 0.8) and bool(vm.max() <= 1.2)
 
 
 def _iterations(net):
